@@ -602,10 +602,10 @@ Qed.
 Local Close Scope Z_scope.
 
 (* ------------------------------------------------------------------ the full claim about the library's branchy float encoder *)
-(* On every double its own decoder can produce, bufr_cvt_dval_to_i64 returns the raw value.  Proved: the regulation-level
-   quantisation of the decoded double is i (spec_raw_of_library_decode, _neg), and the finite instance over all shipped
-   encodings x boundary grid (ScalPartial.encode_float_eq_raw_partial).  The general error analysis of the three encoder
-   branches is not done. *)
+(* On every double its own decoder can produce, bufr_cvt_dval_to_i64 returns the raw value.
+   Proved for the variant the library implements (fx_neg = true) in ScalFull.v (encode_decode_roundtrip, by error analysis of
+   every branch), together with the agreement of the encoder with the specification on every double away from rounding ties.
+   For the historical variant fx_neg = false only the finite instance ScalPartial.encode_float_eq_raw_partial is proved. *)
 Definition C08_full_statement : Prop :=
   forall (pow10 : Z -> b64) (fx_neg : bool), pow10_contract pow10 -> pow10_neg_contract pow10 ->
   forall (desc : Z) (en : enc) (i : Z),
